@@ -1,4 +1,4 @@
-use std::collections::{BTreeMap, HashMap};
+use std::collections::BTreeMap;
 
 use common_lang_types::{
     Diagnostic, DiagnosticResult, EmbeddedLocation, EntityName, SelectableName,
@@ -40,7 +40,9 @@ pub(crate) fn parse_type_system_document(
     let mut non_fatal_diagnostics = vec![];
 
     let mut graphql_root_types = None;
-    let mut directives = HashMap::new();
+    // A BTreeMap, so that the first error reported for an invalid directive does not depend
+    // on the iteration order of a hash map
+    let mut directives = BTreeMap::new();
     let mut interfaces_to_process = vec![];
 
     let (type_system_document, type_system_extension_documents) =
